@@ -11,6 +11,25 @@ What is emitted into coq/gen/RequestsGen.v
     abandonAllRequests queues `req.fail` through eventually() or calls it directly, whether
     newRequestID refuses on a disconnected broker, first request id, one-way request id, ...
 Everything that is not recognised raises Untranslatable (fail closed).
+
+Accepted alternative forms (each equivalent to the reference form for ALL inputs, no assumption on value types):
+  A1. abandonAllRequests:  `x = list(self.waitingForAnswers.values())` immediately followed by `for req in x:` instead of
+      `for req in list(self.waitingForAnswers.values()):`, where x is a local that occurs nowhere else in the function.
+      Equivalence: a for statement evaluates its iterable expression exactly once, before the first iteration; binding that
+      value to a fresh local in the statement directly before (nothing executes in between) and iterating the local yields
+      the same list object; the body cannot rebind or mutate it through the name because the name does not occur in it.
+  A2. abandonAllRequests:  the lost-connection test used directly as the `if` test, or through ONE local assigned before the
+      loop (round 2).  NOTE this is accepted as a *different* program, not as equivalent: hoisting evaluates the test once on
+      the original `why`, which agrees with the per-iteration form because after the first mapped request `why` is a
+      DeadReferenceError failure and the guarded block would build a DeadReferenceError again; the generated
+      `lost_test_of_source` records which test is used and the model/theorems are re-checked against it.
+  A4. Broker.finish: the statements `for (delivery, ready_deferred) in self.inboundDeliveryQueue:
+      self.activeLocalCalls.pop(delivery.reqID, None)` (only after abandonAllRequests) and `self.inboundDeliveryQueue = []` are
+      dropped from the translated program like the other table resets: they read/write only the callee-side tables
+      inboundDeliveryQueue / activeLocalCalls, never waitingForAnswers, `disconnected` or a PendingRequest.
+  A3. (via translate/normalize.py, not here) calls to new helpers are inlined; e.g. `tubid = self._getRemoteShortTubID(None)`
+      becomes `if self.remote_tubref: tubid = ... else: tubid = None`, which the effect-freedom scan of the loop body accepts
+      like the open-coded form (local assignments and calls that are not request effects).
 """
 import ast
 from translate import pylite as P
@@ -206,8 +225,20 @@ def gen_broker(out):
                     if not all(isinstance(t, ast.Name) for t in tg):
                         U("abandonAllRequests: %s assigns to something that is not a local: %s" % (what, src(x)[:80]))
     effect_free(pre, "the statements before the loop")
-    if src(loop.target) != "req" or src(loop.iter) not in ("list(self.waitingForAnswers.values())",):
-        U("abandonAllRequests iterates over `%s`, expected a snapshot list(self.waitingForAnswers.values())" % src(loop.iter))
+    it = loop.iter
+    if isinstance(it, ast.Name):
+        # accepted form (A1, see module docstring): `x = list(self.waitingForAnswers.values())` as the statement
+        # immediately before `for req in x:`, x a local used nowhere else in the function
+        uses = [n for n in ast.walk(P.find_def(mod, "Broker.abandonAllRequests")) if isinstance(n, ast.Name) and n.id == it.id]
+        prev = pre[-1] if pre else None
+        if not (isinstance(prev, ast.Assign) and len(prev.targets) == 1 and isinstance(prev.targets[0], ast.Name)
+                and prev.targets[0].id == it.id and len(uses) == 2):
+            U("abandonAllRequests iterates over the local `%s`, which is not assigned exactly once immediately before the loop "
+              "and used only there" % it.id)
+        it = prev.value
+        pre = pre[:-1]
+    if src(loop.target) != "req" or src(it) not in ("list(self.waitingForAnswers.values())",):
+        U("abandonAllRequests iterates over `%s`, expected a snapshot list(self.waitingForAnswers.values())" % src(it))
     last = loop.body[-1]
     mode = None
     reason_var = None
@@ -253,6 +284,36 @@ def gen_broker(out):
         inits = [src(x) for x in loop.body[:-1] if isinstance(x, ast.Assign) and src(x.targets[0]) == reason_var]
         if inits != ["%s = why" % reason_var]:
             U("abandonAllRequests: `%s` is not initialised from `why` in every iteration: %s" % (reason_var, inits))
+    # every store to the names that carry the decision / the reason, anywhere in the function, must be one of the
+    # statements recognised above (otherwise e.g. `lost = False` at the end of the loop body would go unnoticed)
+    fn_ab = P.find_def(mod, "Broker.abandonAllRequests")
+    stores = {}
+    for st in ast.walk(fn_ab):
+        tg = []
+        if isinstance(st, ast.Assign):
+            tg = st.targets
+        elif isinstance(st, (ast.AugAssign, ast.AnnAssign)):
+            tg = [st.target]
+        elif isinstance(st, (ast.For, ast.comprehension)):
+            tg = [st.target]
+        elif isinstance(st, ast.NamedExpr):
+            tg = [st.target]
+        for t_ in tg:
+            for n in ast.walk(t_):
+                if isinstance(n, ast.Name):
+                    stores.setdefault(n.id, []).append(src(st) if not isinstance(st, ast.For) else "for")
+    allowed = {reason_var: ["%s = failure.Failure(e)" % reason_var] + ([] if reason_var == "why" else ["%s = why" % reason_var]),
+               "why": (["why = failure.Failure(e)"] if reason_var == "why" else []),
+               "req": ["for"]}
+    if isinstance(guard.test, ast.Name):
+        allowed[guard.test.id] = ["%s = %s" % (guard.test.id, t)]
+    for name, ok_ in allowed.items():
+        if sorted(stores.get(name, [])) != sorted(ok_):
+            U("abandonAllRequests: unexpected assignment(s) to `%s`: %s" % (name, stores.get(name)))
+    if reason_var != "why":
+        order = [src(x) for x in loop.body[:-1]]
+        if order.index("%s = why" % reason_var) > loop.body.index(guard):
+            U("abandonAllRequests: `%s = why` comes after the guard" % reason_var)
     out.append("Definition lost_test_of_source : lost_test := %s." % lost_test)
     # the list itself
     lce = [st for st in mod.body if isinstance(st, ast.Assign) and src(st.targets[0]) == "LOST_CONNECTION_ERRORS"]
@@ -266,7 +327,7 @@ def gen_broker(out):
     fin = body_of(P.find_def(mod, "Broker.finish"))
     prog = []
     HARMLESS_ATTRS = {"remote_broker", "myReferenceByPUID", "myReferenceByCLID", "yourReferenceByCLID",
-                      "yourReferenceByURL", "myGifts", "myGiftsByGiftID", "disconnectWatchers"}
+                      "yourReferenceByURL", "myGifts", "myGiftsByGiftID", "disconnectWatchers", "inboundDeliveryQueue"}
     for st in fin:
         s = src(st)
         if isinstance(st, ast.If) and src(st.test) == "self.disconnected":
@@ -288,6 +349,17 @@ def gen_broker(out):
             continue
         if isinstance(st, ast.For) and src(st.iter) == "self.disconnectWatchers" and \
                 all(src(b).startswith("eventually(") for b in st.body):
+            continue
+        # callee-side cleanup (fix 30b3768): forget the inbound calls that were parsed but will never run.  It reads
+        # inboundDeliveryQueue and pops (with a default, so it cannot raise KeyError) from activeLocalCalls -- the table of
+        # calls the PEER is waiting for -- and does not touch waitingForAnswers or any PendingRequest.  Accepted only after
+        # abandonAllRequests, so that even an unexpected exception here could not keep the caller-side requests pending.
+        if isinstance(st, ast.For) and src(st.iter) == "self.inboundDeliveryQueue" and not st.orelse \
+                and isinstance(st.target, ast.Tuple) and all(isinstance(e, ast.Name) for e in st.target.elts) \
+                and len(st.target.elts) == 2 \
+                and [src(b) for b in st.body] == ["self.activeLocalCalls.pop(%s.reqID, None)" % st.target.elts[0].id]:
+            if "FAbandon" not in prog:
+                U("finish: the inbound-queue cleanup loop comes before abandonAllRequests")
             continue
         if isinstance(st, ast.If) and src(st.test) == "self.tub" and not st.orelse and \
                 [src(b) for b in st.body] == ["self.tub.brokerDetached(self, why)"]:
